@@ -26,6 +26,9 @@ pub struct Profile {
     pub full_catalogue: bool,
     /// Probability of a nested DP sub-query (global statistic cross-joined into the aggregation).
     pub p_nested: f64,
+    /// Probability of the "sub-query used twice" shape: a CTE aggregation released once as is and
+    /// re-aggregated once, combined by UNION ALL.
+    pub p_shared_cte: f64,
 }
 
 impl Profile {
@@ -43,12 +46,15 @@ impl Profile {
             p_outer: 0.1,
             full_catalogue: false,
             p_nested: 0.08,
+            p_shared_cte: 0.0,
         };
         match prop {
+            "C03" => Profile { p_shared_cte: 0.05, ..base },
+            "C01" => Profile { p_shared_cte: 0.03, ..base },
             "C09" => Profile { public_keys_only: true, benign_data: true, p_distinct: 0.12, p_row_privacy: 0.15, p_grouped: 0.65, ..base },
             "C04" => Profile { p_nested: 0.0, need_private_key: true, p_grouped: 1.0, p_outer: 0.0, p_distinct: 0.05, ..base },
             "C16" => Profile { full_catalogue: true, p_public_table: 1.0, p_synthetic: 0.3, ..base },
-            "C02" => Profile { p_plain: 0.25, p_synthetic: 0.4, p_public_table: 0.5, p_outer: 0.2, ..base },
+            "C02" => Profile { p_shared_cte: 0.08, p_plain: 0.25, p_synthetic: 0.4, p_public_table: 0.5, p_outer: 0.2, ..base },
             _ => base,
         }
     }
@@ -567,6 +573,41 @@ pub fn generate(seed: u64, run: u64, prop: &str) -> Generated {
         }
         if c.optional && rg.chance(0.3) {
             where_.push(format!("{} IS NOT NULL", q));
+        }
+    }
+
+    // sub-query used twice: released once, re-aggregated once (CTE + UNION ALL)
+    if rg.chance(profile.p_shared_cte) && !numeric.is_empty() && !keyable.is_empty() {
+        let own: Vec<&(String, ColSpec)> = numeric.iter().cloned().filter(|(q, _)| q.starts_with(&format!("{}.", alias_of(&base_t.name)))).collect();
+        let own_keys: Vec<&(String, ColSpec)> = keyable.iter().cloned().filter(|(q, _)| q.starts_with(&format!("{}.", alias_of(&base_t.name)))).collect();
+        if !own.is_empty() && !own_keys.is_empty() {
+            let (vq, _) = own[rg.usize(own.len())];
+            let (kq, kc) = own_keys[rg.usize(own_keys.len())];
+            let a = alias_of(&base_t.name);
+            // only the conjuncts that mention the base table alone
+            let other_aliases: Vec<String> = from.iter().skip(1).map(|f| format!("{}.", f.alias)).collect();
+            let own_where: Vec<String> = where_.iter().filter(|w| !other_aliases.iter().any(|o| w.contains(o.as_str()))).cloned().collect();
+            let inner = format!(
+                "SELECT {} AS k, {}({}) AS v FROM {} AS {}{} GROUP BY {}",
+                kq,
+                rg.pick(&["sum", "count", "avg"]),
+                vq,
+                base_t.name,
+                a,
+                if own_where.is_empty() { String::new() } else { format!(" WHERE {}", own_where.join(" AND ")) },
+                kq
+            );
+            let order = rg.chance(0.5);
+            let (first, second) = ("SELECT v AS v FROM t".to_string(), "SELECT sum(v) / 50 AS v FROM t".to_string());
+            let sql = if order { format!("WITH t AS ({}) {} UNION ALL {}", inner, first, second) } else { format!("WITH t AS ({}) {} UNION ALL {}", inner, second, first) };
+            tags.push(format!("keys:{}", if public_set_of(&kc.ty).is_some() { "pub" } else { "priv" }));
+            tags.push("shared_cte".into());
+            let query = QuerySpec { from: vec![], where_: vec![], keys: vec![], aggs: vec![], having: None, outer: None, plain: None, cte: None };
+            let base = Some((a, base_t.name.clone()));
+            let mut g = finish(seed, run, tables, synthetic, pu, params, query, base, tags, faults, &protected);
+            g.scenario.sql = sql;
+            g.scenario.query = None;
+            return g;
         }
     }
 
